@@ -88,6 +88,12 @@ CHECKS = {
             "on FindInList, FindInPaths(local, server) and FindInAll over generated universes. Held on the executions produced.",
             "rules are only applied where they are sound for the overlay semantics of filters (see assumptions in the evidence).",
             "metamorphic runtime monitoring (pairs of executions compared as sets)"),
+    "C12": ("exploration", "3 C12",
+            "exists / find_one / as_sid agreement with find on every finder, and Sid.exists / children / siblings against the R7 existence "
+            "model, leaf => no children, existing => parent exists, over generated universes and histories in which entities are created "
+            "through the real writer between calls (model updated, everything re-asked). Held on the executions produced.",
+            "R7 models constant-backed levels from the live configuration; unbacked levels and root siblings are not judged.",
+            "runtime consistency monitors between API calls + existence reference model over create histories"),
 }
 
 NOT_YET = {}
